@@ -128,7 +128,8 @@ Definition encode (tl : N) (p : eparam) : res bytes :=
   let head := [p_pid p; 0] in
   let '(kvb, size) := write_kv_info 2 (p_int p) (p_str p) in
   (* the check comes after everything has been written *)
-  if c_max <? u32 size then Err e_toolarge
+  (* compared as int since the repair of /repo (it was uint32(headerInfoSize): a 4 GiB + r header info passed) *)
+  if c_max <? size then Err e_toolarge
   else Ok (be 4 tl ++ magic_flags ++ seq ++ be 2 (u16 (size / 4)) ++ head ++ kvb).
 
 (* binary.BigEndian.PutUint32(buf, uint32(totalLen)) by the caller *)
